@@ -98,7 +98,13 @@ class DagWalker(Walker):
     def iter_walk(self, formula: FNode, **kwargs) -> Any:
         """Performs an iterative walk of the DAG"""
         self.stack.append((False, formula))
-        self._process_stack(**kwargs)
+        try:
+            self._process_stack(**kwargs)
+        except:
+            # Do not leave a partial traversal on the stack: the walker
+            # object outlives the failed call
+            del self.stack[:]
+            raise
         res_key = self._get_key(formula, **kwargs)
         return self.memoization[res_key]
 
